@@ -1,6 +1,7 @@
 import Gallia.Proofs.Lemmas.VEcuGenuine
 import Gallia.Proofs.Lemmas.VEcuModel
 import Gallia.Proofs.Lemmas.VEcuSA
+import Gallia.Proofs.Lemmas.ServerHist
 import Gallia.Gen.C14Handlers
 /-
   C14 - the virtual ECU survives any request and the client accepts its answers.
@@ -403,5 +404,169 @@ example : (vecuRun exM ⟨SrvState.init, 0⟩
      (4, [0x27, 0x02, 0x42], {})]).st = ⟨3, some 1, some (2, [])⟩ := by decide +kernel
 example : (vecuHandleAt exM ⟨⟨3, some 1, none⟩, 4⟩ 48 [0x22, 0xF1, 0x86] {}).2 =
     .ok ⟨1, none, none⟩ (some (.other [0x62, 0xF1, 0x86, 0x01])) := by decide +kernel
+
+/-! ## whole histories with both clock reads, the negative paths of the handlers, reply lengths -/
+
+theorem handleSE_outcome (b : Behavior) (m : Model) (h : Handler) (ts : TState) (start stop : Nat) (r : Server.Req) :
+    (handleSE b m h ts start stop r).2 = (handleAt b m h ts start r).2 ∧
+    (handleSE b m h ts start stop r).1.st = (handleAt b m h ts start r).1.st := by
+  unfold handleSE handleAt
+  simp only
+  cases respond b m h (if start - ts.lastActive > idleLimit then ts.st.reset else ts.st) r <;> exact ⟨rfl, rfl⟩
+
+/-- histories as `UDSServerTransport.handle_request` really runs them - the inactivity test on the clock read at the
+    start, `last_time_active` the clock read at the end: the session stays offered -/
+theorem history_stays_offered_clock (m : Model) (hm : ModelOK m) :
+    ∀ (hist : List CItem) (ts : TState), Ready m ts.st → (∀ c ∈ hist, c.bytes ≠ []) →
+      Ready m (vecuRunSE allOn m ts hist).st := by
+  intro hist
+  induction hist with
+  | nil => intro ts hr _; exact hr
+  | cons c rest ih =>
+    intro ts hr hall
+    unfold vecuRunSE
+    simp only [List.map_cons, runH]
+    apply ih
+    · have := never_leaves m c.orc ts c.start c.bytes hm hr (hall c (by simp))
+      unfold vecuHandleAt at this
+      simp only [CItem.toH]
+      rw [(handleSE_outcome allOn m _ ts c.start c.stop _).2]
+      exact this
+    · intro q hq; exact hall q (by simp [hq])
+
+/-- **server_reply_accepted over whole histories with the inactivity rule as coded**: start the ECU with any model
+    `ModelOK`, send any history of non-empty requests with any clock readings (each request its own oracle), then any
+    non-empty request: if the ECU answers, the client accepts the answer as the reply to every request object with those
+    bytes, and the answer is a well-formed response -/
+theorem history_reply_accepted_clock (m : Model) (hm : ModelOK m) (hist : List CItem) (t0 : Nat)
+    (hall : ∀ c ∈ hist, c.bytes ≠ []) (c : CItem) (hb : c.bytes ≠ []) (st' : SrvState) (x : Server.Resp)
+    (h : (vecuHandleSE allOn m (vecuRunSE allOn m ⟨SrvState.init, t0⟩ hist) c).2 = .ok st' (some x)) :
+    (∀ r : UdsReq.Req, UdsReq.encode r = c.bytes → ∃ y, parsePdu x.pdu r = .accepted y) ∧
+    (∃ y, UdsResp.decodeResp x.pdu = .ok y ∧ y.WF ∧ UdsResp.encodeResp y = x.pdu) := by
+  have hr' := history_stays_offered_clock m hm hist ⟨SrvState.init, t0⟩ hm.ready_init hall
+  generalize vecuRunSE allOn m ⟨SrvState.init, t0⟩ hist = ts' at hr' h
+  unfold vecuHandleSE at h
+  rw [(handleSE_outcome allOn m _ ts' c.start c.stop _).1] at h
+  have hr0 : Ready m (if c.start - ts'.lastActive > idleLimit then ts'.st.reset else ts'.st) := by
+    split
+    · exact ⟨hr'.wf, hm.closed.dflt, hr'.listed⟩
+    · exact hr'
+  unfold handleAt at h
+  simp only at h
+  generalize (if c.start - ts'.lastActive > idleLimit then ts'.st.reset else ts'.st) = st0 at hr0 h
+  have hresp : vecuRespond m c.orc st0 c.bytes = .ok st' (some x) := by
+    unfold vecuRespond
+    cases hres : respond allOn m (vecuHandler c.orc) st0 (mkReq c.bytes) with
+    | crash cr => rw [hres] at h; simp at h
+    | ok s rep => rw [hres] at h; simpa using h
+  exact ⟨server_reply_accepted m c.orc st0 st' c.bytes x hr0 hb hresp, reply_well_formed m c.orc st0 st' c.bytes x hr0 hb hresp⟩
+
+/-- **the negative paths of every handler**: whatever negative response a handler of `RandomUDSServer` returns - for any
+    oracle, state and parsed request - it names the request's service, its code is one of the five the handlers use,
+    the regenerated NRC -> exception map has a class for exactly that code (`raise_for_error` cannot KeyError), and the
+    client accepts `7F sid nrc` as the (negative) answer to that request -/
+theorem handler_negatives_accepted (o : Orc) (st : SrvState) (q : UdsReq.Req) (hq : q.WF) (s n : UInt8)
+    (h : typedHandler o st q = some (.neg s n)) :
+    s = sidOf q ∧ n ∈ [VEcu.nrcSFNS, VEcu.nrcLength, VEcu.nrcSequence, nrcOutOfRange, VEcu.nrcInvalidKey] ∧
+    (∃ e ∈ Gen.C03Tables.exceptionTable, e.1 = n.toNat ∧ e.2.2 = n.toNat) ∧
+    parsePdu [0x7F, s, n] q = .accepted (.neg s n) := by
+  have h12 : s = sidOf q ∧ n ∈ [VEcu.nrcSFNS, VEcu.nrcLength, VEcu.nrcSequence, nrcOutOfRange, VEcu.nrcInvalidKey] := by
+    unfold typedHandler at h
+    split at h <;> (try unfold sendKey at h) <;> (try unfold neg at h) <;> (repeat' split at h) <;>
+      simp only [Option.some.injEq, UdsResp.Resp.neg.injEq, reduceCtorEq] at h <;>
+      first
+        | (obtain ⟨h1, h2⟩ := h; subst h1; subst h2; simp)
+        | cases h
+  obtain ⟨hs, hn⟩ := h12
+  have hlisted : n.toNat ∈ UdsResp.nrcTable := by
+    simp only [List.mem_cons, List.not_mem_nil, or_false] at hn
+    rcases hn with rfl | rfl | rfl | rfl | rfl <;> decide
+  obtain ⟨s', hs'⟩ : ∃ s', Reply.reqSid q = some s' := by
+    unfold Reply.reqSid
+    cases q with
+    | raw b =>
+      simp only [typedHandler] at h
+      split at h
+      · rename_i hb
+        cases b with
+        | nil => simp at hb
+        | cons a t => exact ⟨a, rfl⟩
+      · cases h
+    | clearDDDI d sup => cases d <;> exact ⟨_, rfl⟩
+    | _ => exact ⟨_, rfl⟩
+  have hgen := (genuine_neg q s' hs' n hlisted).2
+  rw [← hs] at hgen
+  obtain ⟨y, hy, hacc⟩ := C03.genuine_accepted q hq _ hgen
+  have hy' : y = .neg s n := by
+    have : UdsResp.decodeResp (UdsResp.encodeResp (.neg s n)) = .ok (.neg s n) :=
+      C02.decodeResp_encodeResp (.neg s n) hlisted
+    rw [this] at hy; exact (Except.ok.inj hy).symm
+  subst hy'
+  have hacc' : parsePdu [0x7F, s, n] q = .accepted (.neg s n) := by simpa [UdsResp.encodeResp] using hacc
+  exact ⟨hs, hn, (C03.accepted_negative_has_exception q _ s n hacc').2, hacc'⟩
+
+theorem dictPut_length_le (d : List (Nat × UInt8)) (k : Nat) (v : UInt8) : (dictPut d k v).length ≤ d.length + 1 := by
+  induction d with
+  | nil => simp [dictPut]
+  | cons e rest ih =>
+    obtain ⟨k', v'⟩ := e
+    unfold dictPut
+    split <;> simp <;> omega
+
+theorem dtcRecords_length_le (o : Orc) : o.dtcRecords.length ≤ o.dtcCount := by
+  unfold Orc.dtcRecords
+  have key : ∀ (ps : List (Fin 16777216 × UInt8)) (d : List (Nat × UInt8)),
+      (ps.foldl (fun d p => dictPut d p.1.val (p.2 &&& o.byte)) d).length ≤ d.length + ps.length := by
+    intro ps
+    induction ps with
+    | nil => intro d; simp
+    | cons p rest ih =>
+      intro d
+      simp only [List.foldl_cons, List.length_cons]
+      have h1 := ih (dictPut d p.1.val (p.2 &&& o.byte))
+      have h2 := dictPut_length_le d p.1.val (p.2 &&& o.byte)
+      omega
+  have := key ((List.range o.dtcCount).map (fun i => o.dtcs.getD i (0, 0))) []
+  simpa using this
+
+theorem encRecs_length (l : List (Nat × UInt8)) : (UdsResp.encRecs l).length = 4 * l.length := by
+  induction l with
+  | nil => rfl
+  | cons e rest ih => obtain ⟨d, s⟩ := e; simp [UdsResp.encRecs, ih]; omega
+
+/-- **reply_length_bounds**: no handler builds a reply longer than 4095 bytes (the largest UDS message over ISO-TP)
+    as long as the two unbounded draws stay within `random_payload` length <= 4090 and DTC count <= 1023. The code
+    draws both from `expovariate`, whose range with Python's 53-bit `random()` ends near 36.7 / lambda: 294 for the
+    payload (mean 8) - far inside -, 1837 for the DTC count (mean 50) - a count above 1023 (probability about 1e-9 per
+    call) would give a longer reply; the bound on the count is tight (3 + 4 * 1023 = 4095). -/
+theorem reply_length_bounds (o : Orc) (st : SrvState) (q : UdsReq.Req) (x : UdsResp.Resp)
+    (hp : o.payLen ≤ 4090) (hd : o.dtcCount ≤ 1023) (h : typedHandler o st q = some x) :
+    (UdsResp.encodeResp x).length ≤ 4095 := by
+  have hpay : ∀ k, k ≤ 1 → (o.randomPayload k).length ≤ 4090 := by
+    intro k hk; rw [randomPayload_length]; omega
+  have hdtc : (UdsResp.encRecs o.dtcRecords).length ≤ 4092 := by
+    rw [encRecs_length]; have := dtcRecords_length_le o; omega
+  have h0 := hpay 0 (by omega)
+  have h1 := hpay 1 (by omega)
+  unfold typedHandler at h
+  split at h <;> (try unfold sendKey at h) <;> (try unfold neg at h) <;> (repeat' split at h) <;>
+    simp only [Option.some.injEq, reduceCtorEq] at h <;>
+    first
+      | (subst h; simp [UdsResp.encodeResp] <;> omega)
+      | cases h
+
+/-- the hypotheses of `reply_length_bounds` are satisfiable with a long reply, and a handler-level negative reply is
+    accepted: 1023 DTC draws that all hit the same DTC collapse into one record -/
+example : (UdsResp.encodeResp ((typedHandler { byte := 0xFF, dtcCount := 2, dtcs := [(1, 3), (2, 5)] } s1 (.dtcByMask 2 0xFF false)).getD
+    .clearDTC)).length = 11 := by decide +kernel
+example : typedHandler { bools := [false] } s1 (.rdbi [0x1234]) = some (.neg 0x22 0x31) ∧
+    parsePdu [0x7F, 0x22, 0x31] (.rdbi [0x1234]) = .accepted (.neg 0x22 0x31) := by decide +kernel
+
+/-- a history with distinct clock reads: the key arrives 10 s after the END of the seed request (which took 1 s): still
+    answered in the same state, accepted; 0.25 s later it would have hit the inactivity reset -/
+example : (vecuHandleSE allOn exM ⟨⟨3, none, some (1, [0x42])⟩, 8⟩ ⟨48, 49, [0x27, 0x02, 0x42], {}⟩).2 =
+      .ok ⟨3, some 1, some (2, [])⟩ (some (.sa 2 [])) ∧
+    (vecuHandleSE allOn exM ⟨⟨3, none, some (1, [0x42])⟩, 8⟩ ⟨49, 50, [0x27, 0x02, 0x42], {}⟩).2 =
+      .ok ⟨1, none, none⟩ (some (.neg 0x27 0x7F)) := by decide +kernel
 
 end Gallia.C14
